@@ -234,16 +234,26 @@ fn main() {
             if Term::eq(a, b) && Term::eq(b, c3) && !Term::eq(a, c3) { fail(format!("eq not transitive: {:?} {:?} {:?}", a, b, c3)); }
         }
     }}
-    // NsTerm vs IRI for every split point
-    let full = "x:abc";
-    for cut in 0..=full.len() {
-        let ns = Namespace::new_unchecked(&full[..cut]);
-        let t = ns.get_unchecked(&full[cut..]);
-        for o in ["x:abc", "x:ab", "x:abcd", "x:abd", ""] {
-            n += 1;
-            let want = o == full;
-            if Term::eq(&t, iri(o)) != want || Term::eq(&iri(o), t) != want { fail(format!("NsTerm({:?}+{:?}) vs <{}>", &full[..cut], &full[cut..], o)); }
-            if want && h(&t) != h(&iri(o)) { fail(format!("NsTerm hash differs from the IRI's: {}", o)); }
+    // NsTerm vs IRI for every split point, against every near miss of the full IRI: one character removed or
+    // inserted anywhere, any substring doubled (so that a namespace and a suffix that overlap or leave a gap are met)
+    for full in ["x:abc", "x:aaa", "http://e/ns#ab"] {
+        let mut others: Vec<String> = vec![full.to_string(), String::new()];
+        for i in 0..full.len() { let mut s = full.to_string(); s.remove(i); others.push(s); }
+        for i in 0..=full.len() { for c in "abc:x#/".chars() { let mut s = full.to_string(); s.insert(i, c); others.push(s); } }
+        for i in 0..full.len() { for j in i + 1..=full.len() { others.push(format!("{}{}{}", &full[..j], &full[i..j], &full[j..])); } }
+        for i in 0..full.len() { for j in i + 1..=full.len() { others.push(format!("{}{}", &full[..i], &full[j..])); } }
+        others.sort(); others.dedup();
+        others.retain(|o| IriRef::new(o.as_str()).is_ok());
+        for cut in 0..=full.len() {
+            let ns = Namespace::new_unchecked(&full[..cut]);
+            let t = ns.get_unchecked(&full[cut..]);
+            for o in &others {
+                n += 1;
+                let want = o == full;
+                if Term::eq(&t, iri(o)) != want || Term::eq(&iri(o), t) != want || Term::eq(&&t, iri(o)) != want { fail(format!("NsTerm({:?}+{:?}) vs <{}>", &full[..cut], &full[cut..], o)); }
+                if want && (h(&t) != h(&iri(o)) || Term::cmp(&t, iri(o)) != Ordering::Equal) { fail(format!("NsTerm hash / cmp differs from the IRI's: {}", o)); }
+                if (Term::cmp(&t, iri(o)) == Ordering::Equal) != want { fail(format!("NsTerm({:?}+{:?}) cmp vs <{}>", &full[..cut], &full[cut..], o)); }
+            }
         }
     }
     // native terms vs their SimpleTerm copies
